@@ -86,6 +86,7 @@ pub struct Gen<'a> {
     pub rng: &'a mut Rng,
     next_token: usize,
     pub lines: Vec<GLine>,
+    pub special_names: bool,
 }
 
 const EXTS: &[&str] = &["rs", "py", "txt", "c", "js", "md", "toml", "sh", ""];
@@ -97,7 +98,7 @@ const MB_WORDS: &[&str] = &["héllo", "naïve", "日本", "语言", "λ", "→",
 
 impl<'a> Gen<'a> {
     pub fn new(rng: &'a mut Rng) -> Self {
-        Gen { rng, next_token: 0, lines: Vec::new() }
+        Gen { rng, next_token: 0, lines: Vec::new(), special_names: true }
     }
 
     fn token(&mut self) -> String {
@@ -145,6 +146,11 @@ impl<'a> Gen<'a> {
 
     fn fname(&mut self, section: usize) -> String {
         let dir = *self.rng.pick(&["", "src/", "a/b/", "lib/x/"]);
+        if self.special_names && self.rng.chance(1, 3) {
+            // names whose language is chosen by the whole file name, next to plain names with the same extension
+            let n = *self.rng.pick(&["CMakeLists.txt", "notes.txt", "requirements.txt", "Cargo.lock", "yarn.lock", "Makefile", "Dockerfile", "nginx.conf", "app.conf", "todo.txt", "Gemfile", "Rakefile", ".bashrc", "build.gradle", "package.json"]);
+            return format!("{}{}", dir, n);
+        }
         let ext = *self.rng.pick(EXTS);
         let stem = format!("f{}_{}", section, self.rng.below(1000));
         if ext.is_empty() {
